@@ -27,7 +27,9 @@ RULE = ("bin tables with 1-3 chromosomes (fixed width with short last bin, varia
         "ordered chunk iterator of dicts/DataFrames, ArrayLoader with chunksize 1..n+1) x value dtypes/extra columns x h5opts x "
         "random JSON metadata x assembly names; dtype of the input bin-id columns {int8, uint8, int16, uint16, int32, uint32, int64} x {sorted frame, "
         "shuffled frame, shuffled dict, chunk iterator} x storage mode on tables of 12-20 bins and of 300 bins whose pixels reach the highest bin "
-        "ids (dense view compared up to 20 bins, sparse view for 300); a separate malformed stream (unsorted, duplicates across chunks, out-of-range ids, "
+        "ids (dense view compared up to 20 bins, sparse view for 300); one round trip of 1,000,005 records over 2100 bins in which row 1000 begins exactly at record 1,000,000 (frame and 7-chunk iterator; "
+        "square mode too in the thorough tier), read back through pixels()[a:b], sparse row fetches of rows 998..1002 and a dense window; "
+        "a separate malformed stream (unsorted, duplicates across chunks, out-of-range ids, "
         "integer overflow of the output dtype, more records than max_size) is compared model-vs-code only. "
         "non-trivial = at least 2 stored pixels or >= 2 chunks or an off-diagonal pixel or a non-default option; distinct by case hash")
 TRUSTED = ["h5py/HDF5 storage of each column (filters, dtype conversion) is observed through raw reads, not modelled",
@@ -578,6 +580,158 @@ def check_case(ctx, case, out, mo):
             ctx.fail(case, {"violations": [list(map(str, b_)) for b_ in bad[:4]]}, sig)
 
 
+
+# --------------------------------------------------------------------------- one large round trip (> 1,000,000 records)
+BIG_N = 2100          # bins
+BIG_ROWS = 1000       # rows 0..999 hold BIG_PER records each, so that row 1000 begins exactly at record 1,000,000
+BIG_PER = 1000        # (index_pixels run-length-encodes bin1_id in blocks of 1,000,000 records)
+
+
+def big_case(form, symm):
+    return {"grp": "big", "nbins": BIG_N, "full_rows": BIG_ROWS, "per_row": BIG_PER, "symm": symm, "form": form, "nchunks": 7,
+            "extra": [[1000, [1000, 1500, 2099]], [1001, [1001, 1002]]] if symm else [[1000, [0, 1000, 2099]], [1001, [5, 1001]]]}
+
+
+def big_records(case):
+    """numpy columns of the (sorted) input, from the case parameters only"""
+    R, P = case["full_rows"], case["per_row"]
+    b1 = np.repeat(np.arange(R, dtype=np.int64), P)
+    first = b1 if case["symm"] else b1 // 2            # square mode: rows reach below the diagonal
+    b2 = first + np.tile(np.arange(P, dtype=np.int64), R)
+    for r, cs in case["extra"]:
+        b1 = np.concatenate([b1, np.full(len(cs), r, dtype=np.int64)])
+        b2 = np.concatenate([b2, np.array(cs, dtype=np.int64)])
+    v = 1 + (b1 * 7 + b2 * 3) % 97
+    return b1, b2, v
+
+
+def big_impl(case, path):
+    import cooler
+    import h5py
+    from gen_bins import blocks_from_widths, table_from_blocks
+    n = case["nbins"]
+    bins = table_from_blocks(blocks_from_widths([[10] * 1500, [10] * (n - 1501) + [4]]))
+    b1, b2, v = big_records(case)
+    if os.path.exists(path):
+        os.remove(path)
+    if case["form"] == "frame":
+        px = pd.DataFrame({"bin1_id": b1, "bin2_id": b2, "count": v})
+        kw = {}
+    else:
+        # 7 chunks, one of them empty, one chunk boundary right next to the 1,000,000-record block boundary
+        edges = [0, 150_000, 400_000, 400_000, 700_001, 1_000_000 - 1, 1_000_000 + 2, len(b1)]
+        assert len(edges) == case["nchunks"] + 1
+        px = ({"bin1_id": b1[a:b_], "bin2_id": b2[a:b_], "count": v[a:b_]} for a, b_ in zip(edges[:-1], edges[1:]))
+        kw = {"ordered": True}
+    st, msg = G.guarded(lambda: cooler.create_cooler(path, bins, px, symmetric_upper=case["symm"], **kw), 120)
+    if st != "ok":
+        return {"result": G.err_kind_of_message(st, msg)}
+
+    def read():
+        out = {"result": "ok"}
+        with h5py.File(path, "r") as f:
+            out["nnz"] = int(f.attrs["nnz"])
+            out["sum"] = int(f.attrs["sum"])
+            out["raw_len"] = [int(f["pixels"][c].shape[0]) for c in ("bin1_id", "bin2_id", "count")]
+            out["bin1_offset"] = [int(x) for x in f["indexes/bin1_offset"][:]]
+        clr = cooler.Cooler(path)
+        lo, hi = 1_000_000 - 3, 1_000_000 + 5
+        df = clr.pixels()[lo:hi]
+        out["pixels_window"] = [[int(a), int(b_), int(c)] for a, b_, c in zip(df["bin1_id"], df["bin2_id"], df["count"])]
+        full = clr.pixels()[:]
+        out["pixels_equal"] = bool(len(full) == len(b1) and np.array_equal(full["bin1_id"].values, b1)
+                                   and np.array_equal(full["bin2_id"].values, b2) and np.array_equal(full["count"].values, v))
+        rows = {}
+        for r in (998, 999, 1000, 1001, 1002):
+            sp = clr.matrix(balance=False, sparse=True)[r:r + 1, :]
+            rows[str(r)] = sorted([r + int(i), int(j), int(x)] for i, j, x in zip(sp.row, sp.col, sp.data))
+        out["rows"] = rows
+        sp = clr.matrix(balance=False, sparse=True)[998:1002, :]
+        out["block"] = sorted([998 + int(i), int(j), int(x)] for i, j, x in zip(sp.row, sp.col, sp.data))
+        m = clr.matrix(balance=False)[996:1004, 990:1010]
+        out["dense_window"] = [[int(x) for x in row_] for row_ in m]
+        return out
+
+    st, val = G.guarded(read, 120)
+    return val if st == "ok" else {"result": "ok", "read_error": st + ": " + val[:200]}
+
+
+def big_reference(case):
+    """expected observables from the input records only"""
+    b1, b2, v = big_records(case)
+    exp = {"nnz": len(b1), "sum": int(v.sum())}
+    lo, hi = 1_000_000 - 3, 1_000_000 + 5
+    exp["pixels_window"] = [[int(a), int(b_), int(c)] for a, b_, c in zip(b1[lo:hi], b2[lo:hi], v[lo:hi])]
+
+    def row_trip(r):
+        m = b1 == r
+        t = [[r, int(j), int(x)] for j, x in zip(b2[m], v[m])]
+        if case["symm"]:
+            m2 = (b2 == r) & (b1 != r)
+            t += [[r, int(i), int(x)] for i, x in zip(b1[m2], v[m2])]
+        return sorted(t)
+
+    exp["rows"] = {str(r): row_trip(r) for r in (998, 999, 1000, 1001, 1002)}
+    exp["block"] = sorted(t for r in (998, 999, 1000, 1001) for t in row_trip(r))
+    D = np.zeros((8, 20), dtype=np.int64)
+    for r in range(996, 1004):
+        for _, j, x in row_trip(r):
+            if 990 <= j < 1010:
+                D[r - 996, j - 990] += x
+    exp["dense_window"] = D.tolist()
+    exp["row_nnz"] = np.bincount(b1, minlength=case["nbins"]).tolist()
+    return exp
+
+
+def big_oracle(case, out, exp):
+    if out.get("result") != "ok":
+        return [("creation of a valid input failed", "ok", out.get("result"))]
+    if "read_error" in out:
+        return [("reading back failed", "ok", out["read_error"])]
+    bad = []
+    for k in ("nnz", "sum", "pixels_window", "dense_window", "block"):
+        if out[k] != exp[k]:
+            bad.append((k, str(exp[k])[:300], str(out[k])[:300]))
+    if out["raw_len"] != [exp["nnz"]] * 3:
+        bad.append(("raw column lengths", exp["nnz"], out["raw_len"]))
+    if not out["pixels_equal"]:
+        bad.append(("pixels()[:]", "the input records", "differs"))
+    for r, t in exp["rows"].items():
+        if out["rows"][r] != t:
+            bad.append((f"sparse row {r}: {len(t)} entries expected", str(t[:6]), f"{len(out['rows'][r])} entries " + str(out["rows"][r][:6])))
+    return bad
+
+
+def run_big(ctx):
+    """> 10^6 records, a row starting exactly at record 1,000,000: the only scope in which the blockwise run-length
+    encoding inside index_pixels matters for the matrix read"""
+    variants = [("frame", True), ("chunks", True)] + ([("chunks", False), ("frame", False)] if ctx.tier == "thorough" else [])
+    path = str(ctx.tmp / "big.cool")
+    done = []
+    for form, symm in variants:
+        case = big_case(form, symm)
+        out = big_impl(case, path)
+        exp = big_reference(case)
+        ctx.case(case, nontrivial=True, kind=f"big:{form}:{'symm' if symm else 'square'}")
+        done.append((case, out, exp))
+        bad = big_oracle(case, out, exp)
+        if bad:
+            ctx.fail(case, {"violations": [list(map(str, b_)) for b_ in bad[:5]]}, None)
+        if os.path.exists(path):
+            os.remove(path)
+    # model: the row extents are the running sums of the per-row record counts (only the counts go through coqc, once per
+    # distinct count vector)
+    vecs = []
+    for _, _, exp in done:
+        if exp["row_nnz"] not in vecs:
+            vecs.append(exp["row_nnz"])
+    mos = C.coq_eval("From Cooler Require Import Model.Create.",
+                     [f"rev (fold_left (fun acc c => (hd 0 acc + c) :: acc) {C.zl(vv)} [0])" for vv in vecs], tmpdir=ctx.tmp / "bigmodel")
+    for case, out, exp in done:
+        if out.get("result") == "ok" and "read_error" not in out:
+            ctx.compare("bin1_offset = running sum of per-row record counts", case, out["bin1_offset"], list(mos[vecs.index(exp["row_nnz"])]))
+
+
 def run(ctx):
     import simplejson
     cases = gen_cases(ctx)
@@ -619,10 +773,19 @@ def run(ctx):
             ctx.disagree("hypothesis loads(dumps d) = d", {"metadata": doc}, simplejson.loads(simplejson.dumps(doc)), doc)
     ctx.extra["scopes"] = {"cases": len(cases), "metadata_documents": len(docs),
                            "by_group": {g: sum(1 for c in cases if c["grp"] == g) for g in sorted({c["grp"] for c in cases})}}
+    run_big(ctx)
     ctx.exhaustive = True
 
 
 def replay(ctx, case):
+    if case.get("grp") == "big":
+        out = big_impl(case, str(ctx.tmp / "big.cool"))
+        bad = big_oracle(case, out, big_reference(case))
+        for b_ in bad:
+            print("violation:", b_)
+        import shutil
+        shutil.rmtree(ctx.tmp, ignore_errors=True)
+        return not bad
     out = impl_case(case, str(ctx.tmp / "replay.cool"))
     if not is_valid_input(case):
         print("malformed case: no property oracle applies; implementation result:", out.get("result"))
